@@ -69,8 +69,11 @@ type Exec struct {
 	mapSeq         int
 	recoverFrame   []*frame
 
-	permuteMaps bool
-	mapOrders   []string
+	permuteMaps   bool
+	mapOrders     []string
+	mapOrderSeq   int
+	permuteSingle bool
+	permuteUsed   bool
 
 	// environment model
 	env *EnvState
@@ -377,6 +380,11 @@ func (e *Exec) branch(c *Term) bool {
 func (e *Exec) pick(name string, n int) int {
 	if n <= 0 {
 		panic(abortRun{kind: "error", msg: "pick with n<=0: " + name})
+	}
+	for _, p := range e.picks {
+		if p.Name == name {
+			return p.Val // the same named choice asked twice on a path
+		}
 	}
 	if n == 1 {
 		e.picks = append(e.picks, pickRec{name, 0})
